@@ -337,6 +337,8 @@ func (c *ConnManager) DialQUIC(ctx context.Context, raddr ma.Multiaddr, tlsConf 
 		tr.DecreaseCount()
 		return nil, err
 	}
+	// The connection holds a reference to the transport until it is closed.
+	context.AfterFunc(conn.Context(), tr.DecreaseCount)
 	return conn, nil
 }
 
